@@ -201,7 +201,7 @@ def memory_symptom(m):
     out-of-range accessor are reported under C16; a merely wrong sum or state is the business of C02 / C08 / C09."""
     if "out of range" in str(m.get("what", "")) or "panick" in str(m.get("what", "")) or "borrow" in str(m.get("what", "")):
         return True
-    def walk(v):
+    def walk(v, inside=False):
         if isinstance(v, bool):
             return False
         if isinstance(v, int):
@@ -209,13 +209,13 @@ def memory_symptom(m):
         if isinstance(v, float):
             return abs(v) >= 1e36 or v != v
         if v is None:
-            return True                      # serde_json writes NaN / infinity as null
+            return inside                    # serde_json writes NaN / infinity as null INSIDE a list of numbers; a bare null is an absent read
         if isinstance(v, str):
             return "panic" in v or "OUT-OF-RANGE" in v or "already" in v
         if isinstance(v, dict):
-            return any(walk(x) for x in v.values())
+            return any(walk(x, inside) for x in v.values())
         if isinstance(v, list):
-            return any(walk(x) for x in v)
+            return any(walk(x, True) for x in v)
         return False
     return walk(m.get("got"))
 
